@@ -33,6 +33,14 @@ func captureWrites(ev *eval.Evaluator) *[]eval.Str {
 		}
 		return eval.Tuple{eval.K(0), eval.Nil{}}
 	}
+	ev.Extern["io.WriteString"] = func(ev *eval.Evaluator, pos token.Pos, recv eval.Value, args []eval.Value) eval.Value {
+		if st, ok := args[1].(eval.Str); ok {
+			out = append(out, st)
+		} else {
+			out = append(out, eval.SSym(eval.Show(args[1])))
+		}
+		return eval.Tuple{eval.K(0), eval.Nil{}}
+	}
 	for _, name := range []string{"fmt.Fprintln", "fmt.Fprint"} {
 		nl := name == "fmt.Fprintln"
 		ev.Extern[name] = func(ev *eval.Evaluator, pos token.Pos, recv eval.Value, args []eval.Value) eval.Value {
@@ -503,7 +511,7 @@ func c10Concrete(c *core.Ctx, fn *types.Func, tabs *Tables) bool {
 	}
 	L := 4
 	if c.Tier == "thorough" {
-		L = 5
+		L = 6
 	}
 	alpha := []byte("ACTNR-")
 	var seqs []string
@@ -518,7 +526,7 @@ func c10Concrete(c *core.Ctx, fn *types.Func, tabs *Tables) bool {
 		}
 	}
 	gen("")
-	refs := []string{"ACGTA", "AAAAA", "ARNCT", "TC-GA", "NNYCA"}
+	refs := []string{"ACGTAC", "AAAAAA", "ARNCTG", "TC-GAT", "NNYCAG"}
 	enc := func(s string) eval.Value {
 		vs := make([]eval.Value, len(s))
 		for i := 0; i < len(s); i++ {
@@ -574,8 +582,12 @@ func c10Concrete(c *core.Ctx, fn *types.Func, tabs *Tables) bool {
 		}
 		ev := newEval(c)
 		out, errs := &eval.ChanVal{Name: "out"}, &eval.ChanVal{Name: "err"}
-		if _, err := ev.CallFunc(fn, enc(ref), &eval.ChanVal{Name: "in", Feed: feed}, out, errs); err != nil || len(out.Sent) != len(seqs) || len(errs.Sent) != 0 {
-			c.Und(key, fn.Pos(), "cannot evaluate getLines on the family (reference %s): %v (%d rows, %d errors)", ref, err, len(out.Sent), len(errs.Sent))
+		if _, err := ev.CallFunc(fn, enc(ref), &eval.ChanVal{Name: "in", Feed: feed}, out, errs); err != nil {
+			c.Und(key, fn.Pos(), "cannot evaluate getLines on the family (reference %s): %v", ref, err)
+			return false
+		}
+		if len(out.Sent) != len(seqs) || len(errs.Sent) != 0 {
+			c.Ob(key, false, fn.Pos(), "reference %s: %d rows and %d errors for %d sequences of the reference's width: the list has exactly one row per sequence", ref, len(out.Sent), len(errs.Sent), len(seqs))
 			return false
 		}
 		for i, s := range seqs {
